@@ -145,6 +145,21 @@ Theorem C18_local_seed_two_hashes :
 Proof. exact local_seed_refuted. Qed.
 Print Assumptions C18_local_seed_two_hashes.
 
+(* one draw without the retry loop, random source returning the sentinel first: a single
+   thread computes two different hashes; the regenerated program is immune (for every source) *)
+Theorem C18_noretry_seed_two_hashes :
+  exists sch, let st := run noretry_impl rnd_sentinel_first (init_state rc_two [([Hash; Hash], h1 0)]) sch in
+    finished st = true /\ hashes (trace st) = [6; -1] /\ installs (trace st) = [6; -1].
+Proof. exact noretry_seed_refuted. Qed.
+Print Assumptions C18_noretry_seed_two_hashes.
+
+Theorem C18_nonvacuous_seed_sentinel_source :
+  let st := run ThreadImpl.impl rnd_sentinel_first (init_state rc_two [([Hash; Hash], h1 0)])
+                [0;0;0;0;0;0;0;0;0;0;0;0]%nat in
+  finished st = true /\ hashes (trace st) = [6; 6] /\ installs (trace st) = [6].
+Proof. exact seed_example_sentinel. Qed.
+Print Assumptions C18_nonvacuous_seed_sentinel_source.
+
 (* a plain store instead of the CAS: two installs, a later hash differs from an earlier one *)
 Theorem C18_store_seed_two_installs :
   exists sch, let st := run store_impl rnd_ex (init_state rc_two [([Hash], h1 0); ([Hash; Hash], h1 0)]) sch in
